@@ -148,14 +148,49 @@ def design_key(p):
     return p.get("name", p["spec"][1]), None
 
 
+# Input classes of generated expressions that get one key each (naming only; nothing is suppressed here).
+# A shape is the operator / operand-shape tree of the expression driving the failing output, e.g.
+# bin+(uarr,sext(slice)); the first matching class names the key, otherwise the whole shape does.
+_REF = r"(?:port|slice|field|field\.arr|field\.nested|uarr|uarrdyn|sub\.\w+|tmp|bit|bitdyn|loopcast)\b"
+SHAPE_CLASSES = [
+    ("sext-of-array-element", re.compile(r"sext\((?:uarr|uarrdyn|field\.arr)\b")),
+    ("sext-of-expression", re.compile(r"sext\((?!%s)" % _REF)),
+    ("reduce-of-expression", re.compile(r"red_(?:and|or|xor)\((?!%s)" % _REF)),
+]
+
+
+def shape_class(sig):
+    for name, rx in SHAPE_CLASSES:
+        if rx.search(sig):
+            return name
+    return None
+
+
 def _gen_shape(meta, where):
-    """shape of the failing output of a generated design"""
+    """family:shape of the failing output of a generated design"""
+    fam = meta.get("family", "?")
     port = re.sub(r"\[\d+\]", "", where).split(".")[0].split("__")[0]
     sig = (meta.get("sigs") or {}).get(port)
     wm = re.search(r"_w(\d+)", meta.get("shape", ""))
     if sig:
-        return "%s:w%s" % (sig, wm.group(1) if wm else "?")
-    return "%s:%s" % (meta.get("shape", "?"), port)
+        c = shape_class(sig)
+        if c:
+            return c
+        return "%s:%s:w%s" % (fam, sig, wm.group(1) if wm else "?")
+    return "%s:%s:%s" % (fam, meta.get("shape", "?"), port)
+
+
+def _syntax_where(p):
+    """the assignment target on the line a syntax error of the emitted text points at"""
+    m = re.search(r"line (\d+)", p.get("info", ""))
+    if not m:
+        return ""
+    lines = p.get("text", "").splitlines()
+    n = int(m.group(1))
+    if not 0 < n <= len(lines):
+        return ""
+    m2 = re.match(r"\s*(?:assign\s+)?([A-Za-z_]\w*)", lines[n - 1])
+    return m2.group(1) if m2 else ""
 
 
 def run_batch(res, backend, specs, nrand, ncyc, seed_tag, label, cross=False):
@@ -171,7 +206,8 @@ def run_batch(res, backend, specs, nrand, ncyc, seed_tag, label, cross=False):
         res.count("%s_status_%s" % (label, p["status"]))
         dk, meta = design_key(p)
         if p["status"] == "syntax":
-            res.violation("syntax:%s:%s:%s" % (backend, dk if meta is None else "%s:%s" % (dk, meta.get("shape")), _norm(p["info"])[:100]),
+            res.violation("syntax:%s:%s:%s" % (backend, dk if meta is None else "gen:" + _gen_shape(meta, _syntax_where(p)),
+                                               re.sub(r"module \w+: ", "", _norm(p["info"]))[:100]),
                           "%s back end: the text emitted for %s is not valid: %s" % (backend, p.get("name"), p["info"]),
                           {"spec": list(p["spec"][:2]), "text": p.get("text", "")[-3000:]})
             res.count("programs")
@@ -264,6 +300,10 @@ def run_batch(res, backend, specs, nrand, ncyc, seed_tag, label, cross=False):
         eff = err
         if lv is not None and lv[0][0] == "ok":
             eff = "signed-loopvar"
+        elif lv is not None:
+            # it fails with the signedness ignored as well: that failure names the (other) defect
+            (err, pos), tinfo = lv[0], lv[1].get("T", (0, 0, 0))
+            eff = err
         B.clauses[eff] = B.clauses.get(eff, 0) + 1
         k = tinfo[0]
         where = ""
@@ -302,7 +342,7 @@ def run_batch(res, backend, specs, nrand, ncyc, seed_tag, label, cross=False):
         cls = "mismatch" if err.startswith("mismatch") else err
         if meta is not None:
             what = _gen_shape(meta, where) + ("" if cls == "mismatch" else ":" + cls)
-            key = "behaviour:%s:%s:%s" % (backend, dk, what)
+            key = "behaviour:%s:gen:%s" % (backend, what)
         else:
             key = "behaviour:%s:%s:%s:%s" % (backend, dk, cls, where)
         res.violation(key, "%s back end, design %s (%s): %s at cycle %d %s"
